@@ -25,3 +25,33 @@ Theorem C11_last_merge_order_refuted :
   (lookup 5 (family_view false 4%nat (frun true false 4%nat evs)), lookup 5 (naive 4%nat evs)) = (Some 1, Some 3).
 Proof. exact last_merge_order_refuted. Qed.
 Print Assumptions C11_last_merge_order_refuted.
+
+(* ---- the query view over the physical sources of a key (C11/Query.v) ---- *)
+From LinDBV.C12 Require Import Model.
+From LinDBV.C11 Require Import Query.
+
+(* a function whose aggregate type is the field's own sum / min / max: whatever the split of the written points into
+   sources (files, compressed block, write window; any order), every query slot has the reference's value *)
+Theorem C11_query_state_independent ft lo hi r (parts : list wlist) (ws : wlist) j : commutative_type ft = true ->
+  Permutation.Permutation (concat parts) ws -> q_asis ft ft lo hi r parts j = q_ref ft ft lo hi r ws j.
+Proof. exact (query_state_independent ft lo hi r parts ws j). Qed.
+Print Assumptions C11_query_state_independent.
+
+(* at the storage interval, every field type (last and first included), sources in write order *)
+Theorem C11_query_ratio1_write_order ft lo hi (parts : list wlist) j :
+  q_asis ft ft lo hi 1 parts j = q_ref ft ft lo hi 1 (concat parts) j.
+Proof. exact (query_ratio1_write_order ft lo hi parts j). Qed.
+Print Assumptions C11_query_ratio1_write_order.
+
+(* refuted: max(f) of a sum field whose slot is held by two sources is the maximum of the partial sums *)
+Theorem C11_function_over_split_slot_refuted :
+  q_asis 1 3 0 10 1 [[(5, 45)]; [(5, 41)]] 5 = Some 45 /\ q_ref 1 3 0 10 1 [(5, 45); (5, 41)] 5 = Some 86 /\
+  q_asis 1 3 0 10 1 [[(5, 45); (5, 41)]] 5 = Some 86.
+Proof. exact function_over_split_slot_refuted. Qed.
+Print Assumptions C11_function_over_split_slot_refuted.
+
+(* refuted: last down-sampled over several storage slots follows the order of the sources, not of time *)
+Theorem C11_last_downsampled_over_sources_refuted :
+  q_asis 4 4 6 11 6 [[(9, 54)]; [(7, 50)]] 0 = Some 50 /\ q_ref 4 4 6 11 6 [(9, 54); (7, 50)] 0 = Some 54.
+Proof. exact last_downsampled_over_sources_refuted. Qed.
+Print Assumptions C11_last_downsampled_over_sources_refuted.
